@@ -55,12 +55,12 @@ include!("combine.rs");
 #[cfg(kani)]
 mod proofs {
     use super::*;
-    const LP: [usize; 4] = [1, 3, 0, 2]; // where the n group-by columns sit among the left / right result columns
-    const RP: [usize; 4] = [2, 0, 3, 1];
+    const LP: [usize; 5] = [1, 3, 0, 4, 2]; // where the n group-by columns sit among the left / right result columns
+    const RP: [usize; 5] = [2, 0, 4, 1, 3];
     fn col(i: usize) -> TypedBufferRef { TypedBufferRef::new(BufferRef { i, name: "c", t: PhantomData }, EncodingType::I64) }
     fn run(n: usize) {
-        let left = vec![col(10), col(11), col(12), col(13)];
-        let right = vec![col(20), col(21), col(22), col(23)];
+        let left = vec![col(10), col(11), col(12), col(13), col(14)];
+        let right = vec![col(20), col(21), col(22), col(23), col(24)];
         let lprojection: Vec<usize> = LP[..n].to_vec();
         let rprojection: Vec<usize> = RP[..n].to_vec();
         let limit: usize = kani::any();
@@ -102,6 +102,9 @@ mod proofs {
     #[kani::proof]
     #[kani::unwind(7)]
     fn four_group_by_columns() { run(4); }
+    #[kani::proof]
+    #[kani::unwind(8)]
+    fn five_group_by_columns() { run(5); }
     #[kani::proof]
     fn vx_canary() {
         let x: u8 = kani::any();
